@@ -300,3 +300,107 @@ def fiber_scenarios(rng, count, nfib=2, exhaustive_small=True):
         sched = [(rng.randrange(nf), rng.choice(main_actions)) for _ in range(rng.randint(1, 6))]
         out.append(("fibr:%d" % k, build(bodies, params, sched, rng.random() < 0.8)))
     return out
+
+
+# ---------------------------------------------------------------------------------------------------
+# C07: class hierarchies with overriding, super, fields shadowing methods, statics, constructors
+def setf(o, m, e):
+    return {"k": "setf", "o": o, "m": m, "e": e}
+
+
+def class_scenarios(rng, count):
+    out = []
+    for k in range(count):
+        b = Builder()
+        depth = rng.choice([1, 2, 2, 3, 3])
+        local = rng.random() < 0.25            # the whole hierarchy lives inside a function
+        if local:
+            b.fn("scope", [])
+        names = ["K%d" % i for i in range(1, depth + 1)]
+        defined = {}                            # method name -> levels defining it (for valid super calls)
+        explicit_ctor_levels = []
+        for lvl, cname in enumerate(names):
+            sup = names[lvl - 1] if lvl > 0 else (rng.choice([None, None, None, "Error"]) if lvl == 0 else None)
+            b.class_(cname, sup=sup, ctor="new")
+            for mname in ("m", "n"):
+                if lvl == 0:
+                    choice = rng.choice(["define", "define", "omit"])
+                else:
+                    choice = rng.choice(["override", "super-call", "super-value", "omit", "omit"])
+                has_super = bool(defined.get(mname)) or (choice in ("super-call", "super-value") and rng.random() < 0.15)
+                if choice == "omit":
+                    continue
+                np = rng.choice([0, 0, 1])
+                b.method(mname, ["a"] if np else [])
+                tag = "%s.%s" % (cname, mname)
+                if choice in ("define", "override") or not has_super:
+                    b.ret(tup(lit(tag), b.v("a")) if np else lit(tag))
+                elif choice == "super-call":
+                    args = [b.v("a")] if (np and rng.random() < 0.7) else ([] if rng.random() < 0.8 else [lit(0)])
+                    b.ret(tup(lit(tag), b.superinv(mname, *args)))
+                else:
+                    b.var("sm", b.superget(mname))
+                    b.ret(tup(lit(tag), call(b.v("sm"))))
+                b.end()
+                defined.setdefault(mname, []).append(lvl)
+            if lvl == 0 or rng.random() < 0.3:
+                b.method("who", [])
+                b.ret(tup(lit("who@" + cname), inv(b.v("self"), "m")))
+                b.end()
+            if rng.random() < 0.4:
+                b.method("s", ["x"] if rng.random() < 0.5 else [], "static")
+                b.ret(tup(lit("static@" + cname), b.Self()))
+                b.end()
+            if rng.random() < 0.4:
+                b.method("init", ["v"], "ctor")
+                if explicit_ctor_levels and rng.random() < 0.7:
+                    b.expr(b.superinv("init", bin_("+", b.v("v"), lit(1))))
+                b.expr(setf(b.v("self"), "f" + str(lvl), b.v("v")))
+                if rng.random() < 0.2:
+                    b.ret()
+                b.end()
+                explicit_ctor_levels.append(lvl)
+            b.end()
+        if rng.random() < 0.2:
+            b.expr(b.assign(names[0], lit(None)))          # rebinding the superclass name changes nothing
+        for step in range(rng.randint(2, 6)):
+            cname = rng.choice(names[1:] if (names[0:1] and rng.random() < 0.2 and len(names) > 1) else names)
+            lvl = names.index(cname)
+            mk = inv(b.v(cname), "init", lit(10 * step)) if (lvl in explicit_ctor_levels and rng.random() < 0.6) else inv(b.v(cname), "new")
+            var = "x%d" % step
+            b.try_()
+            b.var(var, mk)
+            action = rng.choice(["m", "n", "who", "bound", "field-shadow", "arity", "static-class", "static-inst", "derives", "fields",
+                                 "unknown", "method-in-var", "setf-class"])
+            if action in ("m", "n"):
+                b.print(inv(b.v(var), action, *([lit(step)] if rng.random() < 0.4 else [])))
+            elif action == "who":
+                b.print(inv(b.v(var), "who"))
+            elif action == "bound":
+                b.var("bm", get(b.v(var), "m")); b.print(call(b.v("bm"))); b.print(b.v("bm"))
+            elif action == "field-shadow":
+                b.expr(setf(b.v(var), "m", b.lam([], lambda: lit("field m")))); b.print(inv(b.v(var), "m")); b.print(inv(b.v(var), "who"))
+            elif action == "arity":
+                b.print(inv(b.v(var), "m", lit(1), lit(2)))
+            elif action == "static-class":
+                b.print(inv(b.v(cname), "s", *([lit(step)] if rng.random() < 0.5 else [])))
+            elif action == "static-inst":
+                b.print(inv(b.v(var), "s"))
+            elif action == "derives":
+                b.print(tup(inv(b.v(var), "derives", b.v(names[-1])), inv(b.v(var), "derives", b.v("Object")), inv(b.v(var), "derives", b.v("Error"))))
+            elif action == "fields":
+                b.print(tup(*[get(b.v(var), "f%d" % l) for l in explicit_ctor_levels[:1]])) if explicit_ctor_levels else b.print(b.v(var))
+            elif action == "unknown":
+                b.print(inv(b.v(var), "zzz"))
+            elif action == "method-in-var":
+                b.var("held", get(b.v(var), "n")); b.expr(setf(b.v(var), "keep", b.v("held"))); b.print(inv(b.v(var), "keep"))
+            else:
+                b.expr(setf(b.v(cname), "attr", lit(1)))
+            b.catch("e")
+            b.print(tup(lit("error"), call(b.v("type"), b.v("e")), get(b.v("e"), "context")))
+            b.end()
+        if local:
+            b.end()
+            b.expr(call(b.v("scope")))
+        out.append(("cls:%d" % k, b.toks))
+    return out
